@@ -188,6 +188,13 @@ class C15:
             if ok:
                 w.violation('wrong_passphrase_returns_key', {'ec_multiplied': priv is None},
                             'passphrase %r instead of %r returned key with address %s' % (wrong, pw, k.address()))
+            if priv is None and ch.coin('module_level', 0.5):
+                # the EC-multiplied branch of the module-level function verifies the address hash itself
+                ok, r, _ = self.call('bip38_decrypt_wrong', lambda: K.bip38_decrypt(enc, wrong))
+                if ok and r[3].get('address') != address:
+                    w.violation('wrong_passphrase_returns_key', {'ec_multiplied': True, 'api': 'bip38_decrypt'},
+                                'bip38_decrypt() with passphrase %r instead of %r returned another key (%s)' %
+                                (wrong, pw, r[3].get('address')))
         else:
             pos = ch.int('cpos', 2, len(enc) - 1)
             alphabet = '123456789ABCDEFGHJKLMNPQRSTUVWXYZabcdefghijkmnopqrstuvwxyz'
